@@ -80,7 +80,7 @@ func runC10(c *Ctx) {
 	}
 	// a realm created from the realm template is configured by a whole copy of the template (so with its Authorizer
 	// and authorization options), only the URI differs
-	at := "router.(*router).AttachClient$2"
+	at := "router.(*router).AttachClient$1"
 	if fn := c.Fn(r3, at); fn != nil {
 		whole := len(matches(fn, `^store:&local:config=\*\^r\.realmTemplate$`)) > 0
 		var lit []string
